@@ -11,7 +11,7 @@ EXTENDS BlotsOps, TLC, Json
 
 CONSTANT Big
 
-EPq == {Fin(-2), Fin(0), Fin(3), PInf, NaN, Str(<<12>>), Str(<<13>>), Bool(TRUE), Bool(FALSE), Null, List(<<Fin(1)>>)}
+EPq == {Fin(-2), Fin(0), Fin(3), PInf, NaN, Str(<<12>>), Str(<<13>>), Bool(TRUE), Bool(FALSE), Null, List(<<Fin(1)>>), List(<<NaN>>)}
 EPt == EPq \cup {NZero, NInf, Fin(2), Str(<<>>), Rec(<<>>, <<>>), List(<<>>)}
 EP  == IF Big THEN EPt ELSE EPq
 \* smaller pool for list x list
